@@ -183,10 +183,11 @@ func c17Alphabet(u *JobUnit) ([]*call, error) {
 			out = append(out, &call{name: fmt.Sprintf("%s.%s/plain", js.Name, m.Name), svc: js.Name, method: m, req: valid, opts: CallOpts{Headers: methHdr}})
 			if mi == 0 {
 				out = append(out, &call{name: fmt.Sprintf("%s.%s/handler-error", js.Name, m.Name), svc: js.Name, method: m, req: valid, opts: CallOpts{Headers: methHdr}, failHandler: true})
-				if svc := FindService(u.Name, js.Name); svc != nil && svc.NewMock != nil {
-					// answered by the emitted mock implementation (its shared state: example tables, random source)
-					out = append(out, &call{name: fmt.Sprintf("%s.%s/mock", js.Name, m.Name), svc: js.Name, method: m, req: valid, opts: CallOpts{Headers: methHdr}, useMock: true})
-				}
+			}
+			if svc := FindService(u.Name, js.Name); svc != nil && svc.NewMock != nil {
+				// answered by the emitted mock implementation (its shared state: example tables, random source); every method,
+				// because which responses draw random values depends on their fields
+				out = append(out, &call{name: fmt.Sprintf("%s.%s/mock", js.Name, m.Name), svc: js.Name, method: m, req: valid, opts: CallOpts{Headers: methHdr}, useMock: true})
 			}
 			out = append(out, &call{name: fmt.Sprintf("%s.%s/percall-header+proto", js.Name, m.Name), svc: js.Name, method: m, req: valid,
 				opts: CallOpts{ContentType: "application/x-protobuf", Headers: append(append([]KV(nil), methHdr...), KV{"X-Verif-Call", fmt.Sprintf("c%d", n)})}})
@@ -262,8 +263,8 @@ func c17Unit(j *Job, u *JobUnit) error {
 				return nil, fmt.Errorf("handler failed for %s", method)
 			}
 			if w.useMock[th] {
-				if mock := w.mocks[strings.SplitN(method, ".", 2)[0]]; mock != nil {
-					return mock(ctx, method, req)
+				if parts := strings.SplitN(method, ".", 2); len(parts) == 2 && w.mocks[parts[0]] != nil {
+					return w.mocks[parts[0]](ctx, parts[1], req)
 				}
 			}
 			// response: the default message of the output type (content does not matter, identity of the call does)
